@@ -3,10 +3,10 @@ package main
 // C18 — diagnostics never disclose credentials (E5: secrecy taint).
 
 import (
-	"os"
 	"fmt"
 	"go/token"
 	"go/types"
+	"os"
 	"sort"
 	"strings"
 
@@ -15,6 +15,9 @@ import (
 
 func init() {
 	register(&PropertyCheck{ID: "C18", Level: "proof", Run: checkC18, Canaries: []Canary{
+		{Name: "adv4-E-deferred-print-of-the-password", Rule: "R18.1", Where: "(*Connect).dump#deferred-call", Edits: []Edit{{"connect.go", "\tfmt.Fprintf(w, \"Password: %q\\n\", stars(len(p.Password())))\n", "\tdefer fmt.Fprintf(w, \"Password: %q\\n\", p.Password())\n"}}},
+		{Name: "deferred-dump-of-the-user-properties", Silent: true, Edits: []Edit{{"connect.go", "\tp.UserProperties.dump(w)\n}\n\nfunc stars", "\tdefer p.UserProperties.dump(w)\n}\n\nfunc stars"}}},
+		{Name: "deferred-print-of-the-stars", Silent: true, Edits: []Edit{{"connect.go", "\tfmt.Fprintf(w, \"Password: %q\\n\", stars(len(p.Password())))\n", "\tdefer fmt.Fprintf(w, \"Password: %q\\n\", stars(len(p.Password())))\n"}}},
 		{Name: "buffer-drained-into-the-writer", Rule: "R18.1", Where: "(*Connect).dump#write", Edits: []Edit{{"connect.go", "\tp.UserProperties.dump(w)\n}\n\nfunc stars", "\tp.UserProperties.dump(w)\n\tvar bb bytes.Buffer\n\tbb.Write(p.password)\n\tbb.WriteTo(w)\n}\n\nfunc stars"}}},
 		{Name: "min-of-a-credential-byte", Rule: "R18.1", Where: "(*Connect).dump", Edits: []Edit{{"connect.go", "\tp.UserProperties.dump(w)\n}\n\nfunc stars", "\tp.UserProperties.dump(w)\n\tif len(p.password) > 0 {\n\t\tfmt.Fprintln(w, min(p.password[0], 9))\n\t}\n}\n\nfunc stars"}}},
 		{Name: "pointer-receiver-method-reads-the-credential", Rule: "R18.2", Where: "Connect", Edits: []Edit{{"connect.go", "\tfmt.Fprintf(w, \"Username: %v\\n\", stars(len(p.Username())))\n", "\tfmt.Fprintf(w, \"Username: %v\\n\", stars(len(p.Username())))\n\tif p.username.startsWithSlash() {\n\t\tfmt.Fprintln(w, \"Username looks like a path\")\n\t}\n"}, {"connect.go", "func stars(v int) string {", "func (v *wstring) startsWithSlash() bool { return len(*v) > 0 && (*v)[0] == '/' }\n\nfunc stars(v int) string {"}}},
@@ -711,6 +714,18 @@ func checkC18(p *Prog, c *Check) {
 									t.markMem(cc.Args[0], "builder receiving credential bytes")
 								}
 							}
+						}
+					}
+				case *ssa.Defer, *ssa.Go:
+					// a deferred (or spawned) call is not followed operand by operand: none of its arguments may carry
+					// credential content (`defer fmt.Fprintf(w, "%s", p.password)`)
+					cc := x.(ssa.CallInstruction).Common()
+					nsinks++
+					fnSinks++
+					for i, a := range cc.Args {
+						if t.isT(a) || t.memT[baseObject(a)] {
+							fnBad++
+							c.Bad("R18.1", qname(fn)+"#deferred-call", posOf(p, ins), fmt.Sprintf("argument %d of a deferred or spawned call carries credential content (%s)", i, t.whyOf(a)))
 						}
 					}
 				case *ssa.If:
